@@ -561,6 +561,10 @@ func c15runSeq(idx int, q c15seq) run.Result {
 				return res
 			}
 			if excess, dump := waitGoroutines(base); excess > 0 {
+				if busyServerGoroutines() > 0 {
+					res.Inconclusive = "server goroutines were still working at the end of the grace window after Stop (loaded machine)"
+					return res
+				}
 				res.Violate(sig+":goroutine-leak", "after Stop no server goroutine remains", fmt.Sprintf("%d server goroutine(s) still exist 3 s after Stop returned:\n%s", excess, clipS(dump, 1500)), desc())
 				return res
 			}
